@@ -16,6 +16,7 @@ import (
 type C03Case struct {
 	P     *ref.Problem `json:"p"`
 	Front string       `json:"front"` // cnf | card | pb | opb
+	M     *gen.MaxSat  `json:"m,omitempty"` // when set, P is the relaxed form of M (one relaxation variable per soft clause) and M gives the reference optimum
 	CP    bool         `json:"cp,omitempty"`
 }
 
@@ -40,6 +41,13 @@ func genOptProblem(r *gen.Rng, front string, neg bool) *ref.Problem {
 		p = gen.RandomPBProblem(r, gen.PBOpts{MinVars: 2, MaxVars: 10, MaxW: r.Range(1, 5), NegCoefs: true, MaxCons: 6, Hard: r.Chance(1, 4)})
 	case "opb":
 		p = gen.RandomPBProblem(r, gen.PBOpts{MinVars: 2, MaxVars: 10, MaxW: r.Range(1, 5), NegCoefs: true, MaxCons: 6, NoLE: false, Hard: r.Chance(1, 4)})
+	}
+	if (front == "pb" || front == "opb") && !neg && r.Chance(1, 3) {
+		// optimisation that needs several improvement steps: full-length objective, or relaxed soft clauses
+		if r.Bool() {
+			return gen.RandomObjectiveProblem(r, 5, 11)
+		}
+		return gen.RandomSoftClauseProblem(r, r.Range(3, 5), r.Range(4, 9))
 	}
 	n := p.MaxVar()
 	if n < 1 {
@@ -68,6 +76,31 @@ func genOptProblem(r *gen.Rng, front string, neg bool) *ref.Problem {
 
 func c03Gen(r *gen.Rng, tier string, idx int) interface{} {
 	c := &C03Case{Front: []string{"cnf", "card", "pb", "pb", "opb", "opb"}[r.Intn(6)]}
+	if r.Chance(1, 4) { // relaxed MaxSAT instance with many soft clauses: a long sequence of improvement steps
+		c.Front = []string{"pb", "opb"}[r.Intn(2)]
+		nv := r.Range(5, 8)
+		m := &gen.MaxSat{N: nv}
+		for k := r.Intn(4); k > 0; k-- {
+			m.Hard = append(m.Hard, ref.Cl(r.DistinctLits(nv, r.Range(2, 3))...))
+		}
+		for k := r.Range(10, 22); k > 0; k-- {
+			m.Soft = append(m.Soft, ref.Cl(r.DistinctLits(nv, r.Range(1, 3))...))
+			m.W = append(m.W, r.Range(1, 5))
+		}
+		c.M = m
+		p := &ref.Problem{N: nv + len(m.Soft), HasCost: true}
+		for _, h := range m.Hard {
+			p.Cons = append(p.Cons, h.Clone())
+		}
+		for i, sc := range m.Soft {
+			relax := nv + i + 1
+			p.Cons = append(p.Cons, ref.Cl(append(append([]int{}, sc.Lits...), relax)...))
+			p.CostLits = append(p.CostLits, relax)
+			p.CostW = append(p.CostW, m.W[i])
+		}
+		c.P = p
+		return c
+	}
 	c.P = genOptProblem(r, c.Front, c.Front == "opb" && r.Chance(1, 3))
 	return c
 }
@@ -107,7 +140,13 @@ func c03Run(ci interface{}, rec *Rec) {
 	if mv := p.MaxVar(); mv > n {
 		n = mv
 	}
-	min, sat := p.MinCost(n)
+	var min int
+	var sat bool
+	if c.M != nil {
+		min, sat = c.M.Optimum(c.M.N) // the relaxation variables are determined by the user variables at the optimum
+	} else {
+		min, sat = p.MinCost(n)
+	}
 	neg := false
 	for _, w := range p.CostW {
 		if w < 0 {
@@ -205,7 +244,10 @@ func c03Run(ci interface{}, rec *Rec) {
 			rec.Count("optimum_positive", 1)
 		}
 		// non-trivial: at least two distinct cost values among the models, so the search has to improve or prove
-		if maxc := maxCost(p, n); maxc != min {
+		if c.M != nil {
+			rec.Count("relaxed_maxsat_cases", 1)
+			rec.Interesting(JS(c.M) + c.Front)
+		} else if maxc := maxCost(p, n); maxc != min {
 			rec.Interesting(JS(p) + c.Front)
 		}
 	}
